@@ -225,7 +225,7 @@ func readFull(c *simkit.Conn, b []byte) (int, error) {
 	for n < len(b) {
 		m, err := c.Read(b[n:])
 		n += m
-		if err != nil {
+		if err != nil && n < len(b) {
 			return n, err
 		}
 	}
